@@ -255,3 +255,43 @@ func zzC19e2CloseErrors() {
 	}
 	vf.Reach("end")
 }
+
+// C19.c2: a consumer that lags: every member delivers several messages before the first Read;
+// each message is returned exactly once, unchanged, in its member's order.
+func zzC19c2Backlog() {
+	tm, a, b := zzMembers()
+	sub := &zzSub{ch: make(chan transport.TransportID)}
+	m, err := NewTransport(TransportConfig{TransportMap: tm, InitialTransportID: "a", SchedulerMode: SchedulerModeEvent, EventScheduler: &EventScheduler{Subscriber: sub}})
+	vf.Assume(err == nil)
+	defer m.Close()
+	vf.Settle()
+	na, nb := 1+vf.Choose("a.messages", 3), vf.Choose("b.messages", 3)
+	base := vf.U8("first.byte")
+	vf.Assume(base < 200)
+	for i := 0; i < na; i++ {
+		a.in <- []byte{'a', base + byte(i)}
+	}
+	for i := 0; i < nb; i++ {
+		b.in <- []byte{'b', base + byte(i)}
+	}
+	vf.Settle() // everything is queued inside the multi transport before anybody reads
+	nextA, nextB := 0, 0
+	for i := 0; i < na+nb; i++ {
+		r, e := m.Read()
+		vf.Assert("read-ok", e == nil && len(r) == 2)
+		if e != nil || len(r) != 2 {
+			return
+		}
+		if r[0] == 'a' {
+			vf.Assert("member-a-in-order-once-each", r[1] == base+byte(nextA) && nextA < na)
+			nextA++
+		} else {
+			vf.Assert("member-b-in-order-once-each", r[0] == 'b' && r[1] == base+byte(nextB) && nextB < nb)
+			nextB++
+		}
+	}
+	vf.Assert("all-returned", nextA == na && nextB == nb)
+	extra := vf.Blocked(func() { m.Read() })
+	vf.Assert("nothing-invented", extra)
+	vf.Reach("end")
+}
